@@ -58,6 +58,17 @@ SEARCH_ONLY = [
 ]
 
 TINY = 1e-250        # absolute floor of the kernel comparisons (values in the denormal range)
+FIXED_ZERO_STRETCH = [
+    ("zgauss", {"a": 0.0, "b": 1.0, "x0": 0.2, "s": 0.01}),
+    ("zgauss", {"a": 0.0, "b": 2.0, "x0": 0.2, "s": 0.01}),
+    ("zgauss", {"a": -1.0, "b": 1.0, "x0": 0.6, "s": 0.02}),
+    ("step0", {"a": 0.0, "b": 1.0, "c": 0.41, "h": 1.0}),
+    ("step0", {"a": -1.0, "b": 1.0, "c": 0.3, "h": 1.0}),
+    ("ramp", {"a": 0.0, "b": 1.0, "x0": 0.37, "k": 1.0}),
+    ("ramp", {"a": 0.0, "b": 2.0, "x0": 1.3, "k": 2.0}),
+    ("bump", {"a": 0.0, "b": 1.0, "x0": 0.3, "s": 0.15}),
+    ("bump", {"a": -1.0, "b": 1.0, "x0": -0.5, "s": 0.25}),
+]
 RUN_TIMEOUT = 10.0   # seconds per run of the learner (a run that does not return is counted, not judged)
 
 
@@ -193,6 +204,7 @@ def task_reference(t):
             break
         if niv > 150:              # algorithm_4 drops intervals above 200, the learner above 1000
             break
+        res["zero_intervals_seen"] = res.get("zero_intervals_seen", 0)
         n, d, lig, ler, ldone = by[nr]
         res["states"] += 1
         ref_done = rst == "finished" and k == len(ref)
@@ -605,6 +617,12 @@ def run(chk: Check) -> int:
     ref = {"members": 0, "states_compared_literal": 0, "agree_repo_tolerance": 0, "agree_rel_1e-12": 0,
            "states_with_duplicate_endpoint_evaluations": 0, "of_which_agree": 0, "timeouts": 0, "worst_rel_literal": 0.0,
            "both_divergent": 0, "only_reference_divergent": 0, "only_learner_divergent": 0}
+    # fixed members with an exactly-zero stretch on simple ranges (every run, every seed): an all-zero
+    # interval is the boundary case c_diff == hint * norm(c) == 0 of the forced-split test
+    for fam, params in FIXED_ZERO_STRETCH:
+        for tol in (1e-3, 1e-5, 1e-7):
+            rtasks.append((fam, params, tol, max(loops, 40)))
+            rmetas.append((fam, params, tol))
     with cf.ProcessPoolExecutor(max_workers=14, mp_context=ctx) as ex:
         rres = list(ex.map(task_reference, rtasks, chunksize=2))
     ref.update(done_compared=0, done_agree=0, internal_errors=0)
@@ -719,7 +737,7 @@ def run(chk: Check) -> int:
     chk.extra["wall_parts_s"] = round(time.time() - t_start, 1)
     return chk.finish(
         level="proof",
-        rule="members of 14 integrand families with closed-form integrals (random parameters and ranges, tol 1e-10..1e-3) driven on "
+        rule="members of 18 integrand families (four of them exactly 0.0 on a stretch of the range) with closed-form integrals (random parameters and ranges, tol 1e-10..1e-3) driven on "
              "the real IntegratorLearner with three delivery schedules (ask 1/tell 1; ask k/tell all in order; ask <= 50, tell a "
              "random part in random order with the rest in flight); non-trivial = done() reached with more than one approximating "
              "interval (at least one split) or a non-finite function value was met; distinct by (family, parameters, tol, schedule); "
